@@ -13,6 +13,10 @@ use rand::Rng;
 pub const VERSION: u8 = 1;
 
 pub fn now() -> Result<i64, SystemTimeError> {
+    #[cfg(feature = "verif")]
+    if let Some(now) = crate::verif::clock() {
+        return Ok(now as i64);
+    }
     Ok(SystemTime::now().duration_since(UNIX_EPOCH)?.as_secs() as i64)
 }
 
